@@ -329,7 +329,6 @@ fn own_c04(m: &Mis, op: &Op, pre: &Model) -> Option<String> {
             "status" => Some(format!("C04/{}/{}", m.class, ctx_state(m))),
             "store" => Some("C04/still-present-or-state-changed/store".to_string()),
             "weights" | "weight_used" | "accounting" => Some(format!("C04/weight-not-released/{}", m.aspect)),
-            "index" => Some("C04/expiry-entry-not-released/index".to_string()),
             _ => None,
         };
     }
@@ -373,7 +372,7 @@ fn own_c07(m: &Mis, op: &Op, pre: &Model) -> Option<String> {
         if m.aspect == "status" && (m.class == "readable-not-rejected" || m.class == "absent-rejected-as-existing") {
             return Some(format!("C07/{}/{}", m.class, m.ctx));
         }
-        if pre.state(*key).readable() && matches!(m.aspect, "store" | "weights" | "weight_used" | "index") {
+        if pre.state(*key).readable() && matches!(m.aspect, "store" | "weights" | "weight_used") {
             return Some(format!("C07/overwrote-readable/{}", m.aspect));
         }
     }
@@ -393,7 +392,6 @@ fn own_c08(m: &Mis, op: &Op, pre: &Model) -> Option<String> {
             "upsert" => Some(format!("C08/{}/{}", m.class, ctx_state(m))),
             "status" => Some(format!("C08/status-{}/{}", m.class, ctx_state(m))),
             "store" => Some("C08/field-not-applied-or-other-field-changed/store".to_string()),
-            "index" => Some("C08/expiry-index-not-updated/index".to_string()),
             "weights" | "weight_used" => Some(format!("C08/weight-not-applied/{}", m.aspect)),
             "admission" => Some(format!("C08/absent-not-put-like/{}", m.class)),
             _ => None,
@@ -424,15 +422,14 @@ fn own_c09(m: &Mis, _op: &Op, pre: &Model) -> Option<String> {
     }
 }
 
-fn own_c10(m: &Mis, op: &Op, _pre: &Model) -> Option<String> {
-    let sweep_step = matches!(op, Op::AwaitIdle(RoleName::Sweeper) | Op::Rotate);
-    match m.aspect {
-        "sweep" => Some(format!("C10/{}/seq", m.class)),
-        "index" => Some(format!("C10/expiry-index-mismatch/after={}", oracle::opname2(op))),
-        "store" if sweep_step => Some("C10/wrong-keys-after-sweep/store".to_string()),
-        "weights" | "weight_used" if sweep_step => Some(format!("C10/weight-not-reclaimed/{}", m.aspect)),
-        _ => None,
+fn own_c10(m: &Mis, _op: &Op, _pre: &Model) -> Option<String> {
+    // behavioural judgement only: which keys a sweep removed, whether they were due, whether their
+    // weight was released, and whether a full rotation removed everything that had expired. How the
+    // implementation indexes expiries and which tick visits which shard is not C10's business.
+    if m.aspect == "sweep-semantic" {
+        return Some(format!("C10/{}/seq", m.class));
     }
+    None
 }
 
 fn own_c16(m: &Mis, _op: &Op, _pre: &Model) -> Option<String> {
@@ -762,7 +759,16 @@ fn c08_conc(rng: &mut Rng, name: &'static str) -> Prepared {
                 }
                 6..=7 => Op::Upsert { key: k, val: Some(token(t, i, k)), weight: None, ttl: None, remove_ttl: false, wait: *rng.pick(&[Wait::Later, Wait::Never, Wait::Now]) },
                 8 => Op::Read { kind: *rng.pick(&ALL_READS), keys: vec![k] },
-                _ => Op::AwaitAll,
+                _ => {
+                    if rng.chance(1, 2) {
+                        // delete, then (possibly before the Delete is applied) an upsert: it must act as a put
+                        prog.push(Op::Delete { key: k, wait: *rng.pick(&[Wait::Later, Wait::Now]) });
+                        i += 1;
+                        Op::Upsert { key: k, val: Some(token(t, i, k)), weight: Some(rng.range_i(1, 4)), ttl: None, remove_ttl: false, wait: Wait::Later }
+                    } else {
+                        Op::AwaitAll
+                    }
+                }
             };
             prog.push(op);
             i += 1;
